@@ -16,6 +16,8 @@ var Registry = map[string]func(Tier) int{
 	"C04": C04,
 	"C05": C05,
 	"C11": C11,
+	"C06": C06,
+	"C12": C12,
 }
 
 // Systems used by `pcheck replay` to re-execute graph replays by name.
